@@ -149,8 +149,9 @@ impl IdentifierParser for String {
                 s.to_string()
             };
             Pattern::StartsWith(s)
-        } else if (string.starts_with('"') && string.ends_with('"'))
-            || (string.starts_with('\'') && string.ends_with('\''))
+        } else if string.len() > 1
+            && ((string.starts_with('"') && string.ends_with('"'))
+                || (string.starts_with('\'') && string.ends_with('\'')))
         {
             let s = if insensitive {
                 string[1..string.len() - 1].to_ascii_lowercase()
